@@ -5,6 +5,7 @@
  * verifier's counterexample geometry, then a few everyday geometries. */
 #include "HydroDensitySubGrid.hpp"
 #include "RestartReader.hpp"
+#include "YAMLDictionary.hpp"
 #include "RestartWriter.hpp"
 #include "cm_replay.hpp"
 #include <unistd.h>
@@ -55,10 +56,45 @@ static int fidelity(uint64_t seed, long n) {
   return 0;
 }
 
+/* parameter dictionary: a dictionary with explicit values, defaulted values and unused keys is the same after a
+ * dump / restore, and a defaulted parameter is defaulted again (to the bit) by the restored dictionary */
+static int yaml_roundtrip(void) {
+  int bad = 0;
+  YAMLDictionary d;
+  d.add_value("Hydro:polytropic index explicit", "1.4");
+  d.add_value("SimulationBox:anchor", "[0. m, 0. m, 0. m]");
+  const double g0 = d.get_value< double >("Hydro:polytropic index", 5. / 3.);
+  const double t0 = d.get_value< double >("Hydro:CFL constant", 0.2);
+  const double e0 = d.get_value< double >("Hydro:polytropic index explicit", 5. / 3.);
+  const char *name = "/var/tmp/cm_c09_yaml_restart.dump";
+  { RestartWriter w(name); d.write_restart_file(w); }
+  RestartReader r(name);
+  YAMLDictionary b(r);
+  std::remove(name);
+  if (b._dictionary != d._dictionary || b._used_values != d._used_values) {
+    std::printf("REPRODUCED (native boundary search): real YAMLDictionary after dump/restore: the parameter dictionary differs (e.g. a defaulted key no longer marked as defaulted)\n");
+    bad = 1;
+  }
+  const double g1 = b.get_value< double >("Hydro:polytropic index", 5. / 3.);
+  const double t1 = b.get_value< double >("Hydro:CFL constant", 0.2);
+  const double e1 = b.get_value< double >("Hydro:polytropic index explicit", 5. / 3.);
+  if (cm_bits(g1) != cm_bits(g0) || cm_bits(t1) != cm_bits(t0) || cm_bits(e1) != cm_bits(e0)) {
+    std::printf("REPRODUCED (native boundary search): real YAMLDictionary after dump/restore: defaulted parameter 'Hydro:polytropic index' is %.17g (0x%llx), the uninterrupted run uses %.17g (0x%llx)\n",
+                g1, (unsigned long long)cm_bits(g1), g0, (unsigned long long)cm_bits(g0));
+    bad = 1;
+  }
+  return bad;
+}
+
 static int replay(const char *path) {
   CMInputs in;
   if (!in.load(path)) return 2;
   int bad = 0;
+  if (in.job.find("yaml") != std::string::npos) {
+    bad = yaml_roundtrip();
+    if (!bad) std::printf("NOT-REPRODUCED\n");
+    return bad;
+  }
   if (in.has("in_b3") && in.has("in_n0")) {
     double box[6] = {in.f64("in_b0"), in.f64("in_b1"), in.f64("in_b2"), in.f64("in_b3"), in.f64("in_b4"), in.f64("in_b5")};
     int_fast32_t nc[3] = {(int_fast32_t)in.i64("in_n0"), (int_fast32_t)in.i64("in_n1"), (int_fast32_t)in.i64("in_n2")};
